@@ -14,20 +14,26 @@ try:
 except common.BuildError as e:
     chk.inconclusive_because(str(e)); chk.finish()
 tot = {}
-shards = 8 if quick else 16
-hist = 15 if quick else 2000
+shards = 8 if quick else 64
+hist = 15 if quick else 500
+# every harness process runs up to 16 spinning threads: at most 4 at a time (16 cores), and a generous watchdog
+workers = 8 if quick else 4
 rng = common.SplitMix64(chk.seed * 2654435761 + 8)
 # three jitter regimes: none, light, heavy -- the yield points sit between the individual atomic steps of the containers
 for regime, jit in (("nojitter", None), ("light", "%d:20:200"), ("heavy", "%d:300:3000")):
     env = {"CMI_VERIF_JITTER": jit % rng.randint(1, 10 ** 6)} if jit else {}
-    st, sd = hcheck.run_shards(chk, exe, ["--histories", str(hist if regime != "heavy" else max(5, hist // 4))], shards, timeout=300, env=env)
+    # a blocking ThreadLock that cannot be obtained in 2e9 consecutive attempts (tens of seconds of spinning; a holder is
+    # never legitimately away that long) was never released: the hook ends the process with status 97
+    env["CMI_VERIF_LOCK_SPINS"] = "2000000000"
+    st, sd = hcheck.run_shards(chk, exe, ["--histories", str(hist if regime != "heavy" else max(5, hist // 4))], shards, timeout=300 if quick else 1500, env=env, max_workers=workers,
+                                deadlock_key="lock/never-released")
     for k, v in st.items():
         tot[k] = tot.get(k, 0) + v
         tot["%s_%s" % (regime, k)] = v
 # TSan pass (gcc/clang TSan understands std::thread and std::atomic; the containers' own atomics are visible to it)
 rd = chk.rundir()
 env = {"TSAN_OPTIONS": "halt_on_error=0:report_signal_unsafe=0:log_path=%s/tsan.log:exitcode=0" % rd, "CMI_VERIF_JITTER": "%d:50:500" % rng.randint(1, 10 ** 6)}
-st, sd = hcheck.run_shards(chk, exe_tsan, ["--histories", str(10 if quick else 200)], 3 if quick else 16, timeout=600, env=env)
+st, sd = hcheck.run_shards(chk, exe_tsan, ["--histories", str(10 if quick else 200)], 3 if quick else 16, timeout=600 if quick else 1800, env=env, max_workers=workers)
 tot["tsan_histories"] = sum(v for k, v in st.items() if k.endswith("_histories"))
 reports = tsan_classify.classify_dir(rd)
 tot["tsan_reports"] = len(reports)
